@@ -271,7 +271,7 @@ def classify_invalid(merged, err, inputs=None, ignore_transients=False):
         # the recorded finding: both sides upgraded a pre-4.5 base to 4.5
         if inputs and inputs[0].get('nbformat_minor', 0) < 5 and all(x.get('nbformat_minor', 0) >= 5 for x in inputs[1:]):
             return 'id-missing'
-        return 'id-missing-other'
+        return 'other-id-missing'
     if re.search(r"'(outputs|execution_count)'(, '(outputs|execution_count)')* (was|were) unexpected\) at /cells/\d+$", err) or \
             re.search(r"^'(outputs|execution_count)' is a required property at /cells/\d+$", err):
         m = re.search(r'at /cells/(\d+)$', err)
@@ -292,7 +292,32 @@ def classify_invalid(merged, err, inputs=None, ignore_transients=False):
                 return 'cleared-output'         # the recorded finding: a 'clear' decision pushed up to the outputs list
         except (KeyError, IndexError):
             pass
+    m = re.search(r"has non-unique elements at /cells/(\d+)/metadata/tags$", err)
+    if m and inputs:
+        try:
+            cell = merged['cells'][int(m.group(1))]
+            tags = list(cell['metadata']['tags'])
+            dup = sorted(t for t in set(tags) if tags.count(t) > 1)
+            sides = [_matching_cell(nb, cell) for nb in inputs]
+            if all(c is not None for c in sides):
+                bt, lt, rt = [list(c.get('metadata', {}).get('tags', [])) for c in sides]
+                before = lambda ts, t: [u for u in ts[:ts.index(t)] if u in bt]
+                # the recorded finding: BOTH sides added the same new tag, at different places among the base tags (the list merge
+                # treats them as two independent insertions)
+                if dup and all(t not in bt and t in lt and t in rt and tags.count(t) == 2 and before(lt, t) != before(rt, t) for t in dup):
+                    return 'tag-added-by-both-sides-at-different-places'
+        except (KeyError, IndexError, ValueError, TypeError):
+            pass
+        return 'duplicate-tags'
     return 'other:' + re.sub(r"'[^']*'", "'..'", err)[:60]
+
+
+def _matching_cell(nb, cell):
+    "the cell of nb that `cell` (of the merged notebook) stems from: by id, else by source text"
+    cands = [c for c in nb.get('cells', []) if cell.get('id') is not None and c.get('id') == cell.get('id')]
+    if not cands:
+        cands = [c for c in nb.get('cells', []) if c.get('source') == cell.get('source') and c.get('cell_type') == cell.get('cell_type')]
+    return cands[0] if len(cands) >= 1 else None
 
 
 # ------------------------------------------------------------------------------------------ C05
@@ -318,17 +343,26 @@ def laws_case(b, x, args, label):
     "identity, one-sided adoption, agreement (C05 i-iii)"
     from nbdime.merging import merge_notebooks
     out = []
-    for name, (l, r), want in (('identity', (b, b), b), ('one-sided-local', (x, b), x), ('one-sided-remote', (b, x), x),
-                               ('agreement', (x, x), x)):
-        try:
-            m, dec = merge_notebooks(copy.deepcopy(b), copy.deepcopy(l), copy.deepcopy(r), args)
-        except Exception as exc:
-            out.append(('C05', 'crash:' + exc_site(exc), '%s merge raised %s' % (name, exc_summary(exc))))
-            continue
-        if any(d.conflict for d in dec):
-            out.append(('C05', name + ':conflict', '%s merge reports a conflict (%s)' % (name, label)))
-        if canon(m) != canon(want):
-            out.append(('C05', name + ':result', '%s merge does not return the expected notebook (%s)' % (name, label)))
+    # every law twice: with three independent copies, and with ONE object standing in every role it plays (merge(b, b, b),
+    # merge(b, x, b), ...: what a caller that holds a single notebook object naturally writes)
+    for shared in (False, True):
+        for name, roles, wantrole in (('identity', 'bb', 'b'), ('one-sided-local', 'xb', 'x'), ('one-sided-remote', 'bx', 'x'), ('agreement', 'xx', 'x')):
+            objs = {'b': copy.deepcopy(b), 'x': copy.deepcopy(x)}
+            want = {'b': b, 'x': x}[wantrole]
+            if shared:
+                b_, l_, r_ = objs['b'], objs[roles[0]], objs[roles[1]]
+            else:
+                b_, l_, r_ = objs['b'], copy.deepcopy(objs[roles[0]]), copy.deepcopy(objs[roles[1]])
+            tag = name + (' (one object in several roles)' if shared else '')
+            try:
+                m, dec = merge_notebooks(b_, l_, r_, args)
+            except Exception as exc:
+                out.append(('C05', 'crash:' + exc_site(exc), '%s merge raised %s' % (tag, exc_summary(exc))))
+                continue
+            if any(d.conflict for d in dec):
+                out.append(('C05', name + ':conflict', '%s merge reports a conflict (%s)' % (tag, label)))
+            if canon(m) != canon(want):
+                out.append(('C05', name + ':result', '%s merge does not return the expected notebook (%s)' % (tag, label)))
     return out
 
 
